@@ -537,6 +537,22 @@ func (c *probeCheck) resubmitProbe(run *histRun, rng *core.Rng) bool {
 		}
 	}
 	before := run.snap()
+	// is the state already diverged by the recorded C01 finding (a leaf a live intent rules is missing on the device
+	// because another owner's delete of the presence container above it took it along)? Then the re-submission repairs
+	// the device: that is the same defect seen from here, reported under its own key
+	lostChild := ""
+	for _, si := range step {
+		for k := range run.m.Live[si.Owner].Expanded() {
+			if _, ok := before.dev[k]; !ok && W[k].Owner == si.Owner {
+				kp := model.Parse(k)
+				for i := 1; i < len(kp); i++ {
+					if presenceContainers[kp[:i].String()] {
+						lostChild = k
+					}
+				}
+			}
+		}
+	}
 	id := run.nextID() + "re"
 	run.ds.Dev.CaptureViews = true
 	if c.slowRead {
@@ -569,6 +585,13 @@ func (c *probeCheck) resubmitProbe(run *histRun, rng *core.Rng) bool {
 	run.res.Count("resubmissions", 1)
 	run.res.Count("resubmitted_intents", len(step))
 	what := "re-submission of [" + stepString(step) + "]"
+	if lostChild != "" {
+		if k := fixture.PayloadKey(out.rsp.GetUpdate(), out.rsp.GetDelete()); k != "" {
+			run.res.Violate("C09/resends-child-lost-by-presence-container-delete", "%s: the device had lost %s before (presence container above it deleted by another owner, the C01 finding), the re-submission sends %s\n  model: %s", what, lostChild, k, run.m)
+		}
+		apiCall(run.res, "TransactionConfirm", func() { run.ds.TransactionConfirm(run.ctx, id) })
+		return false
+	}
 	if k := fixture.PayloadKey(out.rsp.GetUpdate(), out.rsp.GetDelete()); k != "" {
 		run.res.Violate("C09/response-lists-changes", "%s: response carries %s\n  model: %s", what, k, run.m)
 	}
